@@ -68,8 +68,9 @@ type c03Fault struct {
 	ID   string `json:"id"` // hex or *
 	From int    `json:"from"`
 	To   int    `json:"to"`
-	F    string `json:"f"` // io rd rp
+	F    string `json:"f"` // io rd rp rs
 	Arg  string `json:"arg,omitempty"`
+	Lbl  string `json:"label,omitempty"` // rs: the chunk id the answer is labelled with
 }
 
 type c03Case struct {
@@ -124,6 +125,10 @@ func (n *c03Node) oracle() string {
 		return fmt.Sprintf("H,%d,%s,%s,%s,%d,%s", n.Hop, b(n.SComp), b(n.Skip), b(n.Unc), n.Retry, kids())
 	case "proto":
 		return fmt.Sprintf("P,%d,%s", n.Hop, kids())
+	case "foreign": // a Store that derives the chunk (and its id) from its content: NewChunk(stored bytes)
+		return fmt.Sprintf("X,%d", n.K)
+	case "sshf": // RemoteSSH -> a ProtocolServer (child process) over such a store
+		return fmt.Sprintf("P,%d,X,%d", n.Hop, n.K)
 	case "ssh": // RemoteSSH -> `desync pull`: a ProtocolServer over a local store opened with SkipVerify
 		return fmt.Sprintf("P,%d,L,%d,l,1,0,0", n.Hop, n.K)
 	}
@@ -143,6 +148,10 @@ func (n *c03Node) shape() string {
 		return s
 	case "ssh":
 		return "ssh"
+	case "sshf":
+		return "ssh(foreign)"
+	case "foreign":
+		return "foreign"
 	}
 	var s []string
 	for _, k := range n.Kids {
@@ -177,8 +186,10 @@ func c03Verifying(n *c03Node) bool {
 		return !n.Skip
 	case "http":
 		return !n.Skip
-	case "proto", "ssh":
+	case "proto", "ssh", "sshf":
 		return true
+	case "foreign": // trusts its content
+		return false
 	}
 	for _, k := range n.Kids {
 		if !c03Verifying(k) {
@@ -193,7 +204,7 @@ func c03Verifying(n *c03Node) bool {
 func c03AllVerifying(n *c03Node) bool {
 	ok := true
 	n.walk(func(x *c03Node) {
-		if (x.T == "leaf" || x.T == "http") && x.Skip {
+		if (x.T == "leaf" || x.T == "http") && x.Skip || x.T == "foreign" || x.T == "sshf" {
 			ok = false
 		}
 		if x.T == "ssh" { // `desync pull` opens its store with SkipVerify; nothing is written behind it
@@ -266,7 +277,7 @@ func (e *c03Env) serveFiles(w http.ResponseWriter, r *http.Request) {
 			case "io":
 				http.Error(w, "injected", http.StatusInternalServerError)
 				return
-			case "rp":
+			case "rp", "rs":
 				w.WriteHeader(200)
 				w.Write(vh.UnHex(fl.Arg))
 				return
@@ -522,7 +533,7 @@ func (e *c03Env) build(n *c03Node, cleanup *[]func()) (desync.Store, error) {
 						}
 					}
 					return
-				case "rp":
+				case "rp", "rs":
 					if rec.Code == 200 {
 						w.WriteHeader(200)
 						w.Write(vh.UnHex(fl.Arg))
@@ -542,12 +553,18 @@ func (e *c03Env) build(n *c03Node, cleanup *[]func()) (desync.Store, error) {
 			return nil, err
 		}
 		return &c03ProtoStore{inner: inner, hop: n.Hop, env: e}, nil
-	case "ssh":
+	case "ssh", "sshf", "foreign":
 		dir := filepath.Join(e.caseDir(), fmt.Sprintf("b%d", n.K))
 		if err := os.MkdirAll(dir, 0755); err != nil {
 			return nil, err
 		}
-		return &c03SSHStore{dir: dir, env: e}, nil
+		switch n.T {
+		case "foreign":
+			return &c03ForeignStore{dir: dir}, nil
+		case "sshf":
+			return &c03SSHStore{dir: dir, env: e, remote: e.self + " C03PULL"}, nil
+		}
+		return &c03SSHStore{dir: dir, env: e, remote: os.Getenv("VH_DESYNC")}, nil
 	}
 	return nil, fmt.Errorf("node type %q", n.T)
 }
@@ -580,14 +597,18 @@ func (f *c03FaultWriter) Write(p []byte) (int, error) {
 			switch fl.F {
 			case "io", "rd":
 				f.mode = "io"
-			case "rp":
+			case "rp", "rs":
 				f.mode = "rp"
 				body := vh.UnHex(fl.Arg)
+				label := f.id[:]
+				if fl.F == "rs" { // a scripted peer: the answer is labelled as the chunk it says it is
+					label = vh.UnHex(fl.Lbl)
+				}
 				m := make([]byte, 16+40+len(body))
 				binary.LittleEndian.PutUint64(m[0:8], uint64(len(m)))
 				binary.LittleEndian.PutUint64(m[8:16], desync.CaProtocolChunk)
 				binary.LittleEndian.PutUint64(m[16:24], desync.CaProtocolChunkCompressed)
-				copy(m[24:56], f.id[:])
+				copy(m[24:56], label)
 				copy(m[56:], body)
 				if _, err := f.w.Write(m); err != nil {
 					return 0, err
@@ -648,11 +669,13 @@ func (p *c03ProtoStore) String() string { return "proto" }
 // remote command locally, CASYNC_REMOTE_PATH = the desync binary (`desync pull - - - <dir>`).
 // A fresh store per request: the server process ends after a missing chunk.
 type c03SSHStore struct {
-	dir string
-	env *c03Env
+	dir    string
+	env    *c03Env
+	remote string // CASYNC_REMOTE_PATH: the desync binary, or this binary as a server over a foreign store
 }
 
 func (s *c03SSHStore) GetChunk(id desync.ChunkID) (*desync.Chunk, error) {
+	os.Setenv("CASYNC_REMOTE_PATH", s.remote)
 	u, _ := url.Parse("ssh://localhost" + s.dir)
 	r, err := desync.NewRemoteSSHStore(u, desync.StoreOptions{N: 1})
 	if err != nil {
@@ -673,6 +696,29 @@ func (s *c03SSHStore) HasChunk(id desync.ChunkID) (bool, error) {
 }
 func (s *c03SSHStore) Close() error   { return nil }
 func (s *c03SSHStore) String() string { return "ssh" }
+
+// c03ForeignStore is a Store outside desync's own that trusts its content: GetChunk returns
+// desync.NewChunk(<the stored bytes>), a chunk whose ID() is derived from the data, not from the
+// request (desync's TestStore behaves like this; so does a foreign casync server).
+type c03ForeignStore struct{ dir string }
+
+func (s *c03ForeignStore) GetChunk(id desync.ChunkID) (*desync.Chunk, error) {
+	sid := hex.EncodeToString(id[:])
+	b, err := os.ReadFile(filepath.Join(s.dir, sid[:4], sid))
+	if os.IsNotExist(err) {
+		return nil, desync.ChunkMissing{ID: id}
+	}
+	if err != nil {
+		return nil, err
+	}
+	return desync.NewChunk(b), nil
+}
+func (s *c03ForeignStore) HasChunk(id desync.ChunkID) (bool, error) {
+	_, err := s.GetChunk(id)
+	return err == nil, nil
+}
+func (s *c03ForeignStore) Close() error   { return nil }
+func (s *c03ForeignStore) String() string { return "foreign:" + s.dir }
 
 // ---------- running one case ----------
 
@@ -736,6 +782,9 @@ func c03Leaves(n *c03Node) []c03Leaf {
 		if x.T == "ssh" {
 			out = append(out, c03Leaf{x.K, false, "local"})
 		}
+		if x.T == "foreign" || x.T == "sshf" {
+			out = append(out, c03Leaf{x.K, true, "foreign"})
+		}
 	})
 	return out
 }
@@ -749,6 +798,7 @@ func (e *c03Env) runCase(c *c03Case, corr bool) error {
 	} else {
 		desync.Digest = desync.SHA512256{}
 	}
+	os.Setenv("VH_C03_DIGEST", c.Digest) // for the C03PULL child
 	leaves := c03Leaves(c.Stack)
 	uncOf := map[int]bool{}
 	for _, l := range leaves {
@@ -762,7 +812,7 @@ func (e *c03Env) runCase(c *c03Case, corr bool) error {
 		}
 	}
 	for _, f := range c.Faults {
-		if f.F == "rp" {
+		if f.F == "rp" || f.F == "rs" {
 			if n, ok := zstdDeclaredSize(vh.UnHex(f.Arg)); ok && n > 64<<20 {
 				e.skippedBig++
 				return nil
@@ -1033,6 +1083,9 @@ func (e *c03Env) correspond(c *c03Case, leaves []c03Leaf, after map[int]map[stri
 	e.mu.Lock()
 	for _, f := range e.rules {
 		s := fmt.Sprintf("%s:%d:%s:%d:%d:%s", f.T, f.K, f.ID, f.From, f.To, f.F)
+		if f.F == "rs" {
+			s += ":" + f.Lbl
+		}
 		if f.F != "io" {
 			s += ":" + f.Arg
 		}
